@@ -345,3 +345,21 @@ def read_raw_in(ev: Evaluator, prog: Program, dim: str, raw, unit_name: str):
     if not isinstance(v, Scalar):
         raise AnalysisError(f'{dim}.from_raw(x, {unit_name}) does not fold to one normal form: {v!r}')
     return v.rf
+
+
+def mk_row(ev: Evaluator, st: State, prog: Program, prefix: str, overrides: Optional[Dict[str, object]] = None) -> Inst:
+    """A TrajectoryData row whose every field holds a value of its annotated type: quantities with the raw symbol
+    ``<prefix><field>`` (displayed in a unit the solver does not use), plain numbers as symbols."""
+    td = prog.cls(M_TD, 'TrajectoryData')
+    display = {'Distance': 'Kilometer', 'Velocity': 'KMH', 'Angular': 'MOA', 'Energy': 'Joule', 'Weight': 'Kilogram'}
+    fields: Dict[str, object] = {}
+    for name in prog.namedtuple_fields(td):
+        ann = td.attrs[name][0]
+        names = [n.id for n in ast.walk(ann) if isinstance(n, ast.Name)] if ann is not None else []
+        dim = next((n for n in names if n in display), None)
+        if dim is not None:
+            fields[name] = mk_quantity(ev, st, prog, dim, f'{prefix}{name}', display[dim])
+        else:
+            fields[name] = S(f'{prefix}{name}')
+    fields.update(overrides or {})
+    return ev.new_inst(st, td, fields)
